@@ -3,19 +3,21 @@
 # demo fails with it and passes without) in a scratch worktree, then store it under /verif/seeded.
 export GOFLAGS=-mod=mod GOPROXY=off GOSUMDB=off GOTOOLCHAIN=local
 SRC=${1:-/tmp/wt}
+SUF=${2:-}   # e.g. r2 -> ids C01-r2m1
 V=/tmp/wt-verify
 git -C /repo worktree remove --force $V 2>/dev/null
 git -C /repo worktree add -q --detach $V HEAD || exit 1
 cd $V
 for d in $SRC/C*/mutants/m*; do
   [ -f $d/patch.diff ] || continue
-  prop=$(echo $d | sed 's#.*/\(C[0-9]*\)/mutants/.*#\1#'); m=$(basename $d); id="$prop-$m"
+  prop=$(echo $d | sed 's#.*/\(C[0-9]*\)/mutants/.*#\1#'); m=$(basename $d); id="$prop-$SUF$m"
   git checkout -q -- . ; git clean -fdq
+  case "$m" in b*) continue;; esac
   res="ok"
   if ! git apply $d/patch.diff 2>/tmp/wt-verify.err; then echo "$id APPLY-FAIL"; continue; fi
   go build ./... >/dev/null 2>&1 && go build -tags verif ./... >/dev/null 2>&1 || res="BUILD-FAIL"
   suite=0
-  for k in 1 2; do go test -vet=off -count=1 ./... >/dev/null 2>&1 || suite=$((suite+1)); done
+  for k in 1 2; do go test -vet=off -count=1 . ./cmd/... >/dev/null 2>&1 || suite=$((suite+1)); done
   cp $d/demo_test.go ./zz_demo_test.go
   timeout 300 go test -vet=off -count=1 . > /tmp/wt-verify.mut.log 2>&1; mutrc=$?
   git checkout -q -- . ; rm -f zz_demo_test.go; cp $d/demo_test.go ./zz_demo_test.go
